@@ -47,6 +47,31 @@ CHECKS["C06"] = dict(
          "per-window and mean-curve peaks come from HvsrCurve (judged by C08); the exact-zero early return follows "
          "the original implementation.")
 
+CHECKS["C19"] = dict(
+    engine="E3", section="4/C19 and 2.3",
+    text="The real hvsrpy.cli.cli is invoked in-process with multiprocessing.Pool replaced by a virtual pool that uses "
+         "CPython's own chunker and pickler and real forked workers; for every ordered batch of 1-3 (quick) / 1-4 "
+         "(thorough) distinct miniSEED inputs with different sampling rates/lengths, every --nproc (and cpu_count "
+         "answer when omitted), every settings combination and EVERY chunk->worker assignment (restricted-growth "
+         "strings), each <stem>.csv must be byte-identical to read->preprocess->process->write for that file alone "
+         "in a fresh process; files written by different chunks must be disjoint; three or four batches are also run "
+         "through the real multiprocessing.Pool and must coincide with one enumerated schedule and its outputs.",
+    note="Interleavings between worker processes are reduced by the checked independence argument (disjoint output "
+         "files, no other shared state between processes), not enumerated; fork start method; inputs with distinct "
+         "stems; obspy's miniSEED writer/reader trusted; four fixed input files.")
+CHECKS["C02"] = dict(
+    engine="E2", section="4/C02",
+    text="For five FFT grids, all seven operators, three bandwidths each, six centre-frequency vectors (every bin "
+         "incl. 0 Hz, midpoints, off-grid, below/above the grid, negative) and both the compiled functions and their "
+         "interpreted sources, the operator's complete weight matrix is recovered from unit impulses and compared "
+         "(1e-9) with an independently written published kernel (row-normalised, zero row for an empty window, DC bin "
+         "excluded; Savitzky-Golay weights from an exact least-squares fit); constants, min/max bounds, cubic "
+         "reproduction, even-m refusal, linearity, bitwise row independence and compiled==interpreted (1e-12) are "
+         "checked on the same calls.",
+    note="Supports are pinned to what the tree documents (DESIGN C02); a sample within 1e-9 of a support limit or a "
+         "Savitzky-Golay centre midway between bins may fall either way; three bandwidths per operator, grids up to "
+         "33 bins.")
+
 NOT_APPLICABLE = []
 
 PENDING = ["C01", "C02", "C03", "C04", "C05", "C06", "C07", "C09", "C10", "C11", "C12", "C13",
